@@ -19,6 +19,19 @@ func (k *Keys) GetCursorPos() (x, y int) {
 	var cursor []byte
 	var match [][]string
 
+	// Let the key reading routine know that a cursor report is expected:
+	// a report nobody asked for (some terminals send the same sequence
+	// for function keys) must not be handed over to us.
+	k.mutex.Lock()
+	k.cursorReq++
+	k.mutex.Unlock()
+
+	defer func() {
+		k.mutex.Lock()
+		k.cursorReq--
+		k.mutex.Unlock()
+	}()
+
 	// Echo the query and wait for the main key
 	// reading routine to send us the response back.
 	fmt.Print("\x1b[6n")
@@ -96,8 +109,16 @@ func (k *Keys) readInputFiltered() (keys []byte, err error) {
 	// If found, strip it and keep the remaining keys.
 	cursor, keys := k.extractCursorPos(buf[:read])
 
+	// Only hand the report over if someone is waiting for it:
+	// sending an unsolicited one would block the reader forever.
 	if len(cursor) > 0 {
-		k.cursor <- cursor
+		k.mutex.RLock()
+		requested := k.cursorReq > 0
+		k.mutex.RUnlock()
+
+		if requested {
+			k.cursor <- cursor
+		}
 	}
 
 	return keys, nil
